@@ -1389,7 +1389,8 @@ def wfNodes (scopes : Scopes) : List NodeP → Bool
 
 /-- graph: single assignment per scope (inputs, initializers, node outputs pairwise distinct and
 non-empty; an initializer may name an input), value_info only for non-input non-output names,
-graph outputs distinct and not inputs/initializers, annotations for declared names only. -/
+graph outputs distinct; an output may be a graph input (pass-through) when its entry equals the
+input's entry, but not a (non-input) initializer; annotations for declared names only. -/
 def wfGraph (outer : Scopes) : GraphP → Bool
   | .mk _ _ nodes initializers inputs outputs valueInfo quant metadata =>
     let inputNames := inputs.map (·.name)
@@ -1402,7 +1403,8 @@ def wfGraph (outer : Scopes) : GraphP → Bool
       && nodupStr (valueInfo.map (·.name))
       && valueInfo.all (fun vi => !inputNames.contains vi.name && !outputNames.contains vi.name)
       && nodupStr outputNames
-      && outputNames.all (fun n => !inputNames.contains n && !initNames.contains n)
+      && outputs.all (fun vo => if inputNames.contains vo.name then inputs.contains vo
+                                 else !initNames.contains vo.name)
       && initializers.all (fun t => wfTensor t && validDType t.dataType)
       && nodupStr (quant.map (·.tensorName))
       && quant.all (fun a => names.contains a.tensorName && !a.params.isEmpty && wfEntries a.params)
